@@ -26,7 +26,10 @@ scapy.all) are replaced by stand-ins in sys.modules *before* the import:
 
 One input line = one history:
   {"ifs":[[ifindex,name,managed]...], "ev":[["NR",dst,len,nh,ifindex] | ["DR",dst,len,nh,ifindex]
-                                            | ["NN",nh,mac] | ["NRX",{raw attrs...}] ...]}
+                                            | ["NN",nh,mac[,ifindex]]      RTM_NEWNEIGH with NDA_LLADDR (a resolution)
+                                            | ["NF",nh[,ifindex]]          RTM_NEWNEIGH WITHOUT NDA_LLADDR (INCOMPLETE / FAILED)
+                                            | ["DN",nh[,ifindex]]          RTM_DELNEIGH
+                                            | ["RAW",{message}]            anything else for the route handler ...]}
 One output line = {"steps":[snapshot after each event]} with
   snapshot = {"lpm":[[module,prefix,len,gate]], "mods":[[name,class,value]], "links":[[m,og,m2,ig]],
               "nc":[[nh,gate,mac,count]], "un":[[key,[[prefix,len,nh,iface]...in arrival order]]], "gc":[[module,n]],
@@ -409,19 +412,47 @@ def run_case(rc, case):
                 ctl._netlink_route_handler(ndb, route_msg("RTM_NEWROUTE" if k == "NR" else "RTM_DELROUTE",
                                                           dst, plen, nh, oif))
             elif k == "NN":
-                _, nh, mac = ev
+                nh, mac = ev[1], ev[2]
+                ifx = ev[3] if len(ev) > 3 else 0        # the interface the neighbour sits on (the handler ignores it)
                 # the kernel has the entry before it announces it
                 for n in w.neigh:
                     if n["dst"] == nh:
                         n["lladdr"] = mac
+                        n["state"] = 2
                         break
                 else:
-                    w.neigh.append({"ifindex": 0, "dst": nh, "lladdr": mac, "state": 2})
-                ctl._netlink_neighbor_handler(ndb, {"family": 2, "ifindex": 0, "state": 2, "flags": 0, "ndm_type": 1,
+                    w.neigh.append({"ifindex": ifx, "dst": nh, "lladdr": mac, "state": 2})
+                ctl._netlink_neighbor_handler(ndb, {"family": 2, "ifindex": ifx, "state": 2, "flags": 0, "ndm_type": 1,
                                                     "attrs": [("NDA_DST", nh), ("NDA_LLADDR", mac),
                                                               ("NDA_PROBES", 1)],
                                                     "header": {"type": 28, "target": "localhost"},
                                                     "event": "RTM_NEWNEIGH"})
+            elif k == "NF":
+                # RTM_NEWNEIGH of an INCOMPLETE / FAILED entry (ARP timeout): neigh_fill_info() adds NDA_LLADDR only
+                # for NUD_VALID entries, so the message has NDA_DST and NO NDA_LLADDR; the table entry has no lladdr
+                nh = ev[1]
+                ifx = ev[2] if len(ev) > 2 else 0
+                for n in w.neigh:
+                    if n["dst"] == nh:
+                        n["lladdr"] = None
+                        n["state"] = 32
+                        break
+                else:
+                    w.neigh.append({"ifindex": ifx, "dst": nh, "lladdr": None, "state": 32})
+                ctl._netlink_neighbor_handler(ndb, {"family": 2, "ifindex": ifx, "state": 32, "flags": 0, "ndm_type": 1,
+                                                    "attrs": [("NDA_DST", nh), ("NDA_PROBES", 3),
+                                                              ("NDA_CACHEINFO", {"ndm_confirmed": 0, "ndm_used": 0})],
+                                                    "header": {"type": 28, "target": "localhost"},
+                                                    "event": "RTM_NEWNEIGH"})
+            elif k == "DN":
+                # RTM_DELNEIGH: the kernel dropped the entry (garbage collection of a FAILED / STALE neighbour)
+                nh = ev[1]
+                ifx = ev[2] if len(ev) > 2 else 0
+                w.neigh[:] = [n for n in w.neigh if n["dst"] != nh]
+                ctl._netlink_neighbor_handler(ndb, {"family": 2, "ifindex": ifx, "state": 32, "flags": 0, "ndm_type": 1,
+                                                    "attrs": [("NDA_DST", nh)],
+                                                    "header": {"type": 29, "target": "localhost"},
+                                                    "event": "RTM_DELNEIGH"})
             elif k == "RAW":         # any other netlink-shaped message for the route handler
                 ctl._netlink_route_handler(ndb, ev[1])
             else:
